@@ -50,6 +50,15 @@ def run(repo: Repo, chk: Check) -> None:
     effects(repo, chk)
     weave(repo, chk)
     if_delta(repo, chk)
+    from . import c01
+
+    sub = Check("C01", chk.tier, chk.repo_root)
+    c01.all_setups(repo, sub)
+    chk.rule("C07.all-setups", "all_setup_ops_in_region (consumed by the loop-head case) sees every nested setup", floor=2)
+    for i in sub.instances:
+        i.rule = "C07.all-setups"
+        chk.instances.append(i)
+    chk.functions |= sub.functions
 
 
 # --------------------------------------------------------------------------- infer_state_of
@@ -109,6 +118,26 @@ def infer_state(repo: Repo, chk: Check) -> None:
                 "the state assumed at the loop head does not depend on the loop body: a field written differently "
                 "inside the loop is still assumed on every later iteration",
                 [ast.unparse(cone)[:300]] if cone is not None else [],
+            )
+            # the meet over the body must be per write: a dictionary that accumulates the body's setups with
+            # update / item assignment keeps only the last write per field (in walk order, ignoring branches)
+            lossy = []
+            if cone is not None:
+                for pat in ("__mut_update__($a, $b)", "__mut_setitem__($a, $k, $b)", "__store__($b, $k)"):
+                    for sub, m in subexprs(cone, pat):
+                        if depends_on(m["b"], "all_setup_ops_in_region($_, $_)", "$_.walk()", "$l.body", binds={"l": loop}) and not depends_on(
+                            m["b"], "set($_)", "$_.add($_)"
+                        ):
+                            lossy.append(ast.unparse(norm.primary(sub))[:80])
+            chk.result(
+                not lossy,
+                "C07.loop-head",
+                key + ":per-write-meet",
+                s.where(),
+                "every setup write of the body is compared on its own (no last-writer-wins accumulation)",
+                "the body's setups are folded into one dictionary by update/item assignment before being compared with the "
+                f"initial state ({lossy[:2]}): only the last write per field in walk order counts, a differing write on another "
+                "path through the body is forgotten",
             )
             chk.result(
                 guarded,
@@ -274,6 +303,30 @@ def effects(repo: Repo, chk: Check) -> None:
             f"{cls} is reported as having accfg effects",
             f"{cls} is no longer reported as affecting accelerator state (unannotated calls must invalidate the state)",
         )
+    # (1b) every non-overridden return for a call op is `True`
+    for s in rets:
+        if has_fact(s, ["isinstance($_, accfg.EffectsAttr)", "isinstance($_, EffectsAttr)"]):
+            continue
+        for fact in s.facts:
+            if fact.kind != "atom":
+                continue
+            m = norm.match(T("isinstance($x, $c)"), fact.expr, {"x": op})
+            if m is None:
+                continue
+            classes = [ast.unparse(e) for e in (m["c"].elts if isinstance(m["c"], ast.Tuple) else [m["c"]])]
+            if not classes or not all(c.endswith("CallOp") for c in classes):
+                continue
+            v = s.node.value
+            chk.result(
+                isinstance(v, ast.Constant) and v.value is True,
+                "C07.effects-table",
+                f"{f.key}:call-always-effecting:{'/'.join(classes)}",
+                s.where(),
+                "an unannotated call is unconditionally reported as effecting",
+                f"for a call op ({'/'.join(classes)}) without effects annotation the function can return "
+                f"`{ast.unparse(v) if v is not None else None}` instead of True: some unannotated calls are treated as harmless",
+                s.fact_texts,
+            )
     # (2) attribute override polarity
     attr_rets = [
         s
